@@ -122,7 +122,10 @@ class WorkerSet(Model):
         return out
 
     def m___or__(self, it, other):
-        raise Unsupported("pending | extra_workers outside block contract")
+        return list(it.iterate(other)) + self.iterate(it)
+
+    def m___ror__(self, it, other):
+        return list(it.iterate(other)) + self.iterate(it)
 
 
 class SockModel(Model):
@@ -154,8 +157,9 @@ class SockModel(Model):
 
 
 class Session:
-    def __init__(self, u, mode="SEQ", ports=None, tag="s", limits=False):
+    def __init__(self, u, mode="SEQ", ports=None, tag="s", limits=False, path_theory=True):
         self.limits = limits
+        self.path_theory = path_theory
         self.u = u
         self.it = u.it
         self.ctx = u.ctx
@@ -224,9 +228,12 @@ class Session:
         f["login"] = self.lazy("str", tag + "_login")
         f["password"] = self.lazy("str", tag + "_password")
         f["base_path"] = PathVal("any", None, None, opaque=z3.Const(f"{tag}_base!{next(models_path._ctr)}", models_path.OP))
-        hp = fresh_seq(tag + "_home")
-        self.ctx.assume(models_path.no_dotdot(hp))
-        f["home_path"] = PathVal("posix", "/", hp)
+        if self.path_theory:
+            hp = fresh_seq(tag + "_home")
+            self.ctx.assume(models_path.no_dotdot(hp))
+            f["home_path"] = PathVal("posix", "/", hp)
+        else:
+            f["home_path"] = PathVal("any", None, None, opaque=z3.Const(f"{tag}_home!{next(models_path._ctr)}", models_path.OP))
         f["permissions"] = Opaque("permissions")
         for n in ("maximum_connections", "read_speed_limit", "write_speed_limit", "read_speed_limit_per_connection", "write_speed_limit_per_connection"):
             f[n] = self.lazy("int", f"{tag}_{n}", lambda v: v.t >= 0)
@@ -303,7 +310,19 @@ class Session:
 
     # per-user slot ledger (I6), kept as a python list of (user, delta) events; see c10
     def um_slot(self, user, delta):
+        """ghost ledger of per-user slots held by this session: list of [user object, condition]"""
         self.ctx.event("um.slot", user, delta)
+        held = self.ghost.setdefault("held_slots", [])
+        if delta < 0:
+            held.append([user, True])
+            return
+        for e in held:
+            if e[0] is user:
+                # returning a slot: the session must hold one of this user
+                self.ctx.check(f"{self.cur_fn()}/um:returns-only-a-slot-it-holds", tt(e[1]), info={"props": ["C10"]})
+                held.remove(e)
+                return
+        self.ctx.check(f"{self.cur_fn()}/um:returns-only-a-slot-it-holds", z3.BoolVal(False), info={"props": ["C10"]})
 
     def vouch(self, user):
         """the user manager vouches for `user` (get_user OK / authenticate True) or for nobody (None)"""
@@ -386,6 +405,8 @@ class Session:
         if name == "logged":
             return pres, done, True
         if name == "current_directory":
+            if not self.path_theory:
+                return pres, done, PathVal("any", None, None, opaque=z3.Const(f"cwd!{next(models_path._ctr)}", models_path.OP))
             ps = fresh_seq("cwd")
             return pres, done, PathVal("posix", "/", ps)
         if name == "rename_from":
@@ -406,8 +427,15 @@ class Session:
         c = self.conn
         fields = fields if fields is not None else PIPE_HAVOC
         for name in fields:
-            pres, done, val = self.fresh_field(name)
             old = c.slots.get(name)
+            if name == "data_connection" and self.mode == "SEQ" and old is not None and not initial:
+                # one command at a time: a data connection can only *appear* (accept callback of the passive listener)
+                old.present = b_or(old.present, fresh("bool", "dc_accepted").t)
+                old.fut.done = b_or(old.fut.done, fresh("bool", "dc_accepted").t)
+                if old.fut.value is None:
+                    old.fut.value = self.mk_stream("data", Reader("data"), Writer("data"))
+                continue
+            pres, done, val = self.fresh_field(name)
             c.slots[name] = Slot(pres, FutureModel(done, val, tag=name))
             # a future captured earlier keeps its identity; another task may have completed it meanwhile
             if old is not None and getattr(old.fut, "shared", False) and old.fut.done is not True:
@@ -422,6 +450,16 @@ class Session:
             pool.size = z3.Int(f"pool_size!{n}")
             self.ctx.assume(pool.size >= 0)
             self.ghost["pool_rest"] = z3.Const(f"pool_rest!{n}", z3.ArraySort(z3.IntSort(), z3.IntSort()))
+        ac = self.server.fields.get("available_connections")
+        if isinstance(ac, Obj):
+            v = self.it.unbox(ac.fields["value"])
+            if v is not None:
+                # other sessions come and go while this task is suspended
+                ac.fields["value"] = fresh("int", "srv_value")
+                self.ghost["srv_rest"] = z3.Int(f"srv_rest!{next(models_path._ctr)}")
+        if "user" in fields or initial:
+            cur = c.slots["user"]
+            self.ghost["held_slots"] = [[cur.fut.value, c.done_term("user")]]
         if "user" in fields or "logged" in fields:
             self.ghost["auth_user"] = "unknown"
             self.ghost["auth_ok"] = fresh("bool", "auth_ok").t
@@ -435,11 +473,33 @@ class Session:
         out.append(("I1-logged-implies-authorised-user", b_implies(d("logged"), b_and(d("user"), self.ghost["auth_ok"]))))
         # a pending future is only ever created by a guard that looked at it; values exist only when done
         cwd = c.slots["current_directory"].fut.value if "current_directory" in c.slots else None
-        if cwd is not None:
+        if cwd is not None and cwd.flavour != "posix":
+            out.append(("I2-user-implies-cwd-set", b_implies(d("user"), d("current_directory"))))
+        elif cwd is not None:
             canon = b_and(cwd.anchor_t() == z3.StringVal("/"), models_path.no_dotdot(cwd.parts))
             out.append(("I2-user-implies-canonical-cwd", b_implies(d("user"), b_and(d("current_directory"), canon))))
         ro = c.slots["restart_offset"].fut.value
         out.append(("I4-restart-offset-nonneg", tt(as_int(ro) >= 0)))
+        # I6 (local form): the session holds exactly one slot of its current user, and nothing else
+        cur = c.slots.get("user")
+        du = d("user")
+        seen = False
+        for obj, cond in self.ghost.get("held_slots", []):
+            if cur is not None and obj is cur.fut.value:
+                seen = True
+                out.append(("I6-holds-a-slot-of-its-user-iff-attached", tt(cond) == tt(du)))
+            else:
+                out.append(("I6-no-slot-of-another-user-held", b_not(cond)))
+        if not seen:
+            out.append(("I6-holds-a-slot-of-its-user-iff-attached", b_not(du)))
+        ac = self.server.fields.get("available_connections")
+        if isinstance(ac, Obj):
+            v = self.it.unbox(ac.fields["value"])
+            if v is not None:
+                acq = c.slots["acquired"].fut.value
+                mine = z3.If(tt(self.it.truthy_term(acq)), 1, 0)
+                out.append(("I5-server-slot-ledger", z3.And(v.t + mine == self.ghost["srv_rest"], self.ghost["srv_rest"] <= self.it.unbox(ac.fields["maximum_value"]).t)))
+                out.append(("I5-counter-in-bounds", z3.And(v.t >= 0, v.t <= self.it.unbox(ac.fields["maximum_value"]).t)))
         pool = self.server.fields.get("available_data_ports")
         if pool is not None:
             # I7 (local form): pool + this session's holding == rest, where rest = configured - other sessions' holdings
@@ -461,7 +521,7 @@ class Session:
     def check_inv(self, where):
         fn = self.cur_fn()
         for name, f in self.inv():
-            props = ["C11", "C12"] if name.startswith("I7") else ["C03", "C02", "C05"]
+            props = ["C11", "C12"] if name.startswith("I7") else (["C10"] if name.startswith(("I5", "I6")) else ["C03", "C02", "C05", "C13"])
             self.ctx.check(f"{fn}/{where}:{name}", tt(f), info={"props": props})
 
     def cur_fn(self):
@@ -472,6 +532,11 @@ class Session:
         return "<unit>"
 
     def on_suspend(self, it, what):
+        if self.mode == "TEARDOWN":
+            # the session is being torn down: its invariant is deliberately given up; cancelled tasks of the session only
+            # release (worker contracts), other sessions move shared counters in balanced pairs (frame + ledgers)
+            it.ctx.event("suspend", what)
+            return
         self.check_inv("suspend")
         self.epoch += 1
         fields = PIPE_HAVOC if self.mode == "PIPE" else SEQ_HAVOC
@@ -486,6 +551,13 @@ class Session:
                 self.ghost["auth_ok"] = True
             else:
                 self.ghost["auth_ok"] = False
+        if name == "data_connection" and how == "del" and getattr(self, "track_detach", False):
+            # I8 (ownership): a worker takes over exactly the stream it has just read, in the same atomic block
+            same = getattr(self, "loaded_epoch", None) == self.epoch
+            self.ctx.check(f"{self.cur_fn()}/detach:takes-over-exactly-the-stream-it-read-atomically", z3.BoolVal(same), info={"props": ["C12", "C14", "C17"]})
+            v = getattr(self, "last_loaded_data", None)
+            if v is not None and v not in self.owned_streams:
+                self.owned_streams.append(v)
         if name == "passive_server" and how == "set":
             pool = self.server.fields.get("available_data_ports")
             if pool is not None:
@@ -497,6 +569,14 @@ class Session:
 
     def on_load(self, it, name):
         pass
+
+    def all_streams(self):
+        out = [self.conn.slots["command_connection"].fut.value]
+        dc = self.conn.slots.get("data_connection")
+        if dc is not None and isinstance(dc.fut.value, Obj):
+            out.append(dc.fut.value)
+        out.extend(getattr(self, "owned_streams", []))
+        return out
 
     def effect(self, kind, **detail):
         fn = self.cur_fn()
